@@ -3,7 +3,7 @@ import ast
 import re
 
 from engine.index import AnalysisError
-from engine.helpers import (parent_map, stmt_of, resolver, facts_at, lit_cmp, describe_facts, unparse, walk_no_nested, returns, deref, reaching_def,
+from engine.helpers import (filter_facts_at, parent_map, stmt_of, resolver, facts_at, lit_cmp, describe_facts, unparse, walk_no_nested, returns, deref, reaching_def,
                             body_only_aborts, is_abort_stmt)
 from engine.fold import EnumConst, Ref
 from engine import rx
@@ -324,6 +324,44 @@ def c07_3(ctx):
               'operands of / and % are converted to exact rationals (Fraction) before the operation, so that 29/100*100 is 29 and large integers keep all their digits',
               f'float() under {sorted(fl)}, Fraction() under {sorted(ex)}')
 
+    # in the binary branch the only value returned is the table operator applied to (left, right): no second way to a quotient
+    g = ctx.cfg(comp)
+    opd = {}
+    for n in ast.walk(comp.node):
+        if isinstance(n, ast.Assign) and isinstance(n.targets[0], ast.Name) and isinstance(n.value, ast.Call) and isinstance(n.value.func, ast.Attribute) \
+                and n.value.func.attr == '_compute' and unparse(n.value.func.value) in ('self.left_child', 'self.right_child'):
+            opd.setdefault(unparse(n.value.func.value), []).append(n)
+    rights = opd.get('self.right_child', [])
+    if len(rights) != 1 or not opd.get('self.left_child'):
+        ctx.err('value:binary-result-is-the-table-operator', comp.site(), 'one evaluation of the right operand bound to a name', str({k: len(v) for k, v in opd.items()}))
+    else:
+        rn = g.node_of(rights[0])
+        rname = rights[0].targets[0].id
+        lnames = {a.targets[0].id for a in opd['self.left_child']}
+        n_ret = 0
+        for r in returns(comp):
+            if r.value is None or not g.has_node(r) or not g.reaches(rn, g.node_of(r)):
+                continue
+            n_ret += 1
+            v = deref(ctx, comp, r.value, r)
+            ok = isinstance(v, ast.Call) and len(v.args) == 2 and not v.keywords
+            if ok:
+                f = deref(ctx, comp, v.func, r)
+                ok = unparse(f) == 'ExpressionNode._operations[self.token_type]' and isinstance(v.args[0], ast.Name) and v.args[0].id in lnames \
+                    and isinstance(v.args[1], ast.Name) and v.args[1].id == rname
+            ctx.check(ok, 'value:binary-result-is-the-table-operator', comp.site(r),
+                      'once both operands are evaluated, the value returned is the operator of the _operations table applied to (left, right) - there is no other way to a quotient, remainder or product',
+                      unparse(r)[:120])
+        if n_ret == 0:
+            ctx.err('value:binary-result-is-the-table-operator', comp.site(), 'a return after the operands are evaluated', 'none found')
+    # the conversion to exact rationals depends on the operator only (not on the operands' types or values)
+    for n in ast.walk(comp.node):
+        if isinstance(n, ast.Call) and isinstance(n.func, ast.Name) and n.func.id == 'Fraction' and len(n.args) == 1 and isinstance(n.args[0], ast.Name) \
+                and n.args[0].id in operand_names:
+            other = [l for cl in filter_facts_at(ctx, comp, n, res) for l in cl if 'self.token_type' not in repr(l)]
+            ctx.check(not other, 'value:exact-division-unconditional', comp.site(n),
+                      'whether the operands of / and % are made exact rationals is decided by the operator alone', 'also depends on: ' + repr(other)[:160])
+
 
 def c07_4(ctx):
     ctx.rule('C07.4', 'lexer totality: unrecognised characters are rejected, not skipped', 1)
@@ -591,6 +629,7 @@ def c07_5(ctx):
     order = []
     from engine.helpers import folded_chain
     node = next((s for s in folded_chain(pf) if isinstance(s, ast.If)), None)
+    unknown_tests = []
     while node is not None:
         tests = node.test.values if isinstance(node.test, ast.BoolOp) and isinstance(node.test.op, ast.Or) else [node.test]
         ret = next((s for s in node.body if isinstance(s, ast.Return)), None)
@@ -601,12 +640,21 @@ def c07_5(ctx):
                 kind = 'prefix' if t.func.attr == 'startswith' else 'suffix'
                 parser[(kind, lit)] = ret
                 order.append((kind, lit))
+            else:
+                unknown_tests.append(t)
         if node.orelse and isinstance(node.orelse[0], ast.If):
             node = node.orelse[0]
         else:
             parser[('plain', '')] = next((s for s in node.orelse if isinstance(s, ast.Return)), None)
             node = None
     site = pf.site()
+    # a text without one of the markers is a decimal number: no branch of the decision list is keyed by anything but a marker
+    known_markers = {('prefix', '$'), ('prefix', '0x'), ('prefix', '0X'), ('suffix', 'H'), ('suffix', 'h'), ('prefix', 'b'), ('prefix', 'B'), ('prefix', '%'),
+                     ('prefix', "'"), ('prefix', '"')}
+    extra = [o for o in order if o not in known_markers]
+    ctx.check(not unknown_tests and not extra, 'literal:decimal-unless-marked', pf.site(unknown_tests[0]) if unknown_tests else site,
+              'every branch of the decision list is keyed by one of the notation markers ($ 0x H b % quote); a text without a marker is converted as a decimal number',
+              'branch keyed by ' + '; '.join([unparse(t)[:80] for t in unknown_tests] + [repr(o) for o in extra]))
     bases = {'$': 16, '0x': 16, 'H': 16, 'b': 2, '%': 2}
     digits = {16: HEX, 2: frozenset('01'), 10: frozenset('0123456789')}
     for (kind, lit), base in [(('prefix', '$'), 16), (('prefix', '0x'), 16), (('suffix', 'H'), 16), (('prefix', 'b'), 2), (('prefix', '%'), 2), (('plain', ''), 10)]:
